@@ -194,7 +194,7 @@ Proof.
       destruct (Hcr _ _ _ _ _ _ Hk He) as [_ [C2 [C3 [C4 [C5 [C6 C7]]]]]].
       eapply (step_entity s off (m_start k) e); eauto; simpl; lia.
   - destruct (omatch (f_ws F) s off) as [w|] eqn:Hw.
-    + eapply step_white; eauto.
+    + exact (step_white _ _ _ _ Hnw Hw).
     + destruct (omatch (f_key F) s off) as [k|] eqn:Hk; [|apply step_junk; exact Hoff].
       destruct (f_create F s k None None) as [e|] eqn:He; [|apply step_junk; exact Hoff].
       pose proof (omatch_span _ _ _ _ Hk) as [Sk1 _].
@@ -221,3 +221,408 @@ Proof.
   pose proof (omatch_span _ _ _ _ Hk) as [S1 [S2 [S3 _]]].
   repeat split; try lia; eapply omatch_group_inside; eauto.
 Qed.
+
+(* ---- str.find ------------------------------------------------------------------------ *)
+Lemma find_from_bounds : forall c s i j, find_from c s i = Some j -> i <= j /\ j < i + length s.
+Proof.
+  induction s as [|x s IH]; intros i j H; simpl in H.
+  - discriminate.
+  - destruct (N.eqb x c).
+    + inversion H; subst. simpl. lia.
+    + apply IH in H. simpl. lia.
+Qed.
+
+Lemma find_char_bounds : forall c s off i, find_char c s off = Some i ->
+  off <= i /\ i < length s.
+Proof.
+  unfold find_char. intros c s off i H. apply find_from_bounds in H.
+  rewrite skipn_length in H. lia.
+Qed.
+
+(* ---- properties ------------------------------------------------------------------------ *)
+Section PropertiesContract.
+Variables (reComment reWs reKey reEscapedEnd reTrailingWS : rx) (gkey : nat).
+Hypothesis Hnc : nullable reComment = false.
+Hypothesis Hnw : nullable reWs = false.
+Hypothesis Hnk : nullable reKey = false.
+
+Lemma value_loop_bounds : forall fuel s o st e st',
+  value_loop reEscapedEnd fuel s o st = (e, st') -> o <= length s -> st <= o ->
+  o <= e /\ e <= length s /\ st <= st' /\ st' <= e.
+Proof.
+  induction fuel as [|f IH]; intros s o st e st' H Ho Hst; simpl in H.
+  - inversion H; subst. lia.
+  - destruct (find_char 10 s o) as [nl|] eqn:Hf.
+    + apply find_char_bounds in Hf.
+      destruct (osearch_end reEscapedEnd s o nl) as [x|].
+      * destruct (Nat.even (m_end x - m_start x)).
+        -- inversion H; subst. lia.
+        -- apply IH in H; lia.
+      * inversion H; subst. lia.
+    + inversion H; subst. lia.
+Qed.
+
+Lemma props_entity : forall s o k c w, omatch reKey s o = Some k ->
+  exists ev,
+    (let (endval, startline) := value_loop reEscapedEnd (S (length s)) s (m_end k) (m_end k) in
+     mkentry KEntity
+       (m_start k, match osearch reTrailingWS s startline with
+                   | Some ws => m_start ws
+                   | None => endval
+                   end)
+       (group gkey k)
+       (Some (m_end k, match osearch reTrailingWS s startline with
+                       | Some ws => m_start ws
+                       | None => endval
+                       end)) c w)
+    = mkentry KEntity (m_start k, ev) (group gkey k) (Some (m_end k, ev)) c w /\
+    m_end k <= ev /\ ev <= length s.
+Proof.
+  intros s o k c w Hk. pose proof (omatch_span _ _ _ _ Hk) as [S1 [S2 [S3 _]]].
+  destruct (value_loop reEscapedEnd (S (length s)) s (m_end k) (m_end k)) as [ev sl] eqn:V.
+  apply value_loop_bounds in V; [|lia|lia].
+  destruct (osearch reTrailingWS s sl) as [ws|] eqn:T.
+  - apply osearch_span in T. exists (m_start ws). split; [reflexivity|lia].
+  - exists ev. split; [reflexivity|lia].
+Qed.
+
+Lemma props_entity_step : forall s off o k c w ev,
+  omatch reKey s o = Some k -> m_end k <= ev -> ev <= length s -> off <= o ->
+  match c with Some sp => fst sp = off | None => o = off end ->
+  step_ok s off (mkentry KEntity (m_start k, ev) (group gkey k) (Some (m_end k, ev)) c w).
+Proof.
+  intros s off o k c w ev Hk H1 H2 H3 H4.
+  pose proof (omatch_progress _ _ _ _ Hnk Hk).
+  pose proof (omatch_group_inside _ _ _ _ gkey Hk) as Hg.
+  pose proof (omatch_span _ _ _ _ Hk) as [S1 [S2 [S3 _]]].
+  eapply (step_entity s off (m_start k)); simpl; try reflexivity; try lia.
+  - eapply span_inside_mono; [| |exact Hg]; lia.
+  - apply span_inside_some; lia.
+  - destruct c; lia.
+Qed.
+
+Lemma get_next_properties_step : forall s off, off < length s ->
+  step_ok s off (get_next_properties reComment reWs reKey reEscapedEnd reTrailingWS gkey s off).
+Proof.
+  intros s off Hoff. unfold get_next_properties. cbv zeta.
+  destruct (omatch reComment s off) as [x|] eqn:Hc.
+  - pose proof (step_comment _ _ _ _ Hnc Hc) as Scom.
+    pose proof (omatch_progress _ _ _ _ Hnc Hc) as Pc.
+    pose proof (omatch_span _ _ _ _ Hc) as [Sc1 [Sc2 [Sc3 _]]].
+    destruct (Nat.eqb off 0 && _); [exact Scom|].
+    destruct (omatch reWs s (m_end x)) as [w|] eqn:Hw.
+    + pose proof (omatch_span _ _ _ _ Hw) as [Sw1 [Sw2 [Sw3 _]]].
+      destruct (1 <? count_char 10 (slice s (m_start w) (m_end w))); [exact Scom|].
+      destruct (omatch reKey s (m_end w)) as [k|] eqn:Hk; [|exact Scom].
+      destruct (props_entity s _ k (Some (mspan x)) (Some (mspan w)) Hk) as [ev [-> [E1 E2]]].
+      eapply props_entity_step; eauto; simpl; lia.
+    + destruct (omatch reKey s (m_end x)) as [k|] eqn:Hk; [|exact Scom].
+      destruct (props_entity s _ k (Some (mspan x)) None Hk) as [ev [-> [E1 E2]]].
+      eapply props_entity_step; eauto; simpl; lia.
+  - destruct (omatch reWs s off) as [w|] eqn:Hw.
+    + exact (step_white _ _ _ _ Hnw Hw).
+    + destruct (omatch reKey s off) as [k|] eqn:Hk; [|apply step_junk; exact Hoff].
+      destruct (props_entity s _ k None None Hk) as [ev [-> [E1 E2]]].
+      eapply props_entity_step; eauto.
+Qed.
+
+Theorem get_next_properties_contract :
+  gn_contract (stateless (get_next_properties reComment reWs reKey reEscapedEnd reTrailingWS gkey)).
+Proof. apply stateless_contract. apply get_next_properties_step. Qed.
+End PropertiesContract.
+
+(* an entry that is exactly one non-empty match at [off], without pre-comment *)
+Lemma step_match : forall r s off x kd ky vl wh, nullable r = false ->
+  omatch r s off = Some x ->
+  span_inside (m_start x) (m_end x) ky -> span_inside (m_start x) (m_end x) vl ->
+  step_ok s off (mkentry kd (mspan x) ky vl None wh).
+Proof.
+  intros r s off x kd ky vl wh Hn H Hk Hv. pose proof (omatch_progress _ _ _ _ Hn H).
+  pose proof (omatch_span _ _ _ _ H) as [H1 [H2 [H3 _]]].
+  eapply (step_entity s off (m_start x)); simpl; try reflexivity; auto; lia.
+Qed.
+
+(* ---- ini ---------------------------------------------------------------------------------- *)
+Section IniContract.
+Variables (reComment reWs reKey reSection : rx) (gkey gval gsecval : nat).
+Hypothesis Hnc : nullable reComment = false.
+Hypothesis Hnw : nullable reWs = false.
+Hypothesis Hnk : nullable reKey = false.
+Hypothesis Hns : nullable reSection = false.
+
+Lemma get_next_ini_step : forall s off, off < length s ->
+  step_ok s off (get_next_ini reComment reWs reKey reSection gkey gval gsecval s off).
+Proof.
+  intros s off Hoff. unfold get_next_ini.
+  destruct (omatch reSection s off) as [x|] eqn:Hs.
+  - eapply step_match; eauto; eapply omatch_group_inside; eauto.
+  - apply get_next_base_step; auto. simpl. apply create_base_ok. exact Hnk.
+Qed.
+
+Theorem get_next_ini_contract :
+  gn_contract (stateless (get_next_ini reComment reWs reKey reSection gkey gval gsecval)).
+Proof. apply stateless_contract. apply get_next_ini_step. Qed.
+End IniContract.
+
+(* ---- defines -------------------------------------------------------------------------------- *)
+Section DefinesContract.
+Variables (reComment reWs reKey rePI : rx) (gkey gval gpival : nat).
+Hypothesis Hnc : nullable reComment = false.
+Hypothesis Hnw : nullable reWs = false.
+Hypothesis Hnk : nullable reKey = false.
+Hypothesis Hnp : nullable rePI = false.
+
+Lemma defines_entity_step : forall s off o k c w,
+  omatch reKey s o = Some k -> off <= o ->
+  match c with Some sp => fst sp = off | None => o = off end ->
+  step_ok s off (mkentry KEntity (mspan k) (group gkey k) (group gval k) c w).
+Proof.
+  intros s off o k c w Hk H3 H4.
+  pose proof (omatch_progress _ _ _ _ Hnk Hk).
+  pose proof (omatch_span _ _ _ _ Hk) as [S1 [S2 [S3 _]]].
+  eapply (step_entity s off (m_start k)); simpl; try reflexivity; try lia.
+  - eapply omatch_group_inside; eauto.
+  - eapply omatch_group_inside; eauto.
+  - destruct c; lia.
+Qed.
+
+Lemma get_next_defines_step : forall fe s off, off < length s ->
+  step_ok s off (fst (get_next_defines reComment reWs reKey rePI gkey gval gpival fe s off)).
+Proof.
+  intros fe s off Hoff. unfold get_next_defines. cbv zeta.
+  destruct (omatch reComment s off) as [x|] eqn:Hc.
+  - pose proof (step_comment _ _ _ _ Hnc Hc) as Scom.
+    pose proof (omatch_progress _ _ _ _ Hnc Hc) as Pc.
+    pose proof (omatch_span _ _ _ _ Hc) as [Sc1 [Sc2 [Sc3 _]]].
+    destruct (omatch reWs s (m_end x)) as [w|] eqn:Hw.
+    + pose proof (omatch_span _ _ _ _ Hw) as [Sw1 [Sw2 [Sw3 _]]].
+      destruct (Nat.eqb (m_end x) 0 || _); [exact Scom|].
+      destruct (1 <? count_char 10 (slice s (m_start w) (m_end w))); [exact Scom|].
+      destruct (omatch reKey s (m_end w)) as [k|] eqn:Hk; [|exact Scom].
+      simpl. eapply defines_entity_step; eauto; simpl; lia.
+    + destruct (omatch reKey s (m_end x)) as [k|] eqn:Hk; [|exact Scom].
+      simpl. eapply defines_entity_step; eauto; simpl; lia.
+  - destruct (omatch reWs s off) as [w|] eqn:Hw.
+    + pose proof (omatch_progress _ _ _ _ Hnw Hw) as Pw.
+      pose proof (omatch_span _ _ _ _ Hw) as [Sw1 [Sw2 [Sw3 _]]].
+      destruct (Nat.eqb off 0 || _).
+      * simpl. eapply (step_match reWs); eauto; apply span_inside_none.
+      * simpl. exact (step_white _ _ _ _ Hnw Hw).
+    + destruct (omatch reKey s off) as [k|] eqn:Hk.
+      * simpl. eapply defines_entity_step; eauto.
+      * destruct (omatch rePI s off) as [p|] eqn:Hp.
+        -- simpl. eapply (step_match rePI); eauto; eapply omatch_group_inside; eauto.
+        -- simpl. apply step_junk. exact Hoff.
+Qed.
+
+Theorem get_next_defines_contract :
+  gn_contract (get_next_defines reComment reWs reKey rePI gkey gval gpival).
+Proof. intros c s off Hoff. apply get_next_defines_step. exact Hoff. Qed.
+End DefinesContract.
+
+(* ---- po --------------------------------------------------------------------------------------- *)
+Lemma starts_with_length : forall p l, starts_with p l = true -> length p <= length l.
+Proof.
+  induction p as [|x p IH]; intros l H; simpl in *.
+  - lia.
+  - destruct l as [|y l]; [discriminate|]. apply andb_true_iff in H. destruct H as [_ H].
+    apply IH in H. simpl. lia.
+Qed.
+
+Lemma startswith_at_bounds : forall key s cur, startswith_at key s cur = true ->
+  cur + length key <= length s.
+Proof.
+  unfold startswith_at. intros key s cur H. apply andb_true_iff in H. destruct H as [H1 H2].
+  apply Nat.leb_le in H1. apply starts_with_length in H2. rewrite skipn_length in H2. lia.
+Qed.
+
+Section PoContract.
+Variables (reWs reListItem : rx).
+
+Lemma list_items_bounds : forall fuel s cur l c', list_items reListItem fuel s cur = (l, c') ->
+  cur <= length s -> cur <= c' /\ c' <= length s.
+Proof.
+  induction fuel as [|f IH]; intros s cur l c' H Hc; simpl in H.
+  - inversion H; subst. lia.
+  - destruct (omatch reListItem s cur) as [x|] eqn:E.
+    + apply omatch_span in E. destruct E as [_ [E2 [E3 _]]].
+      destruct (list_items reListItem f s (m_end x)) as [rest c1] eqn:L.
+      apply IH in L; [|lia]. inversion H; subst. lia.
+    + inversion H; subst. lia.
+Qed.
+
+Lemma parse_string_list_bounds : forall s cur key fr c',
+  parse_string_list reListItem s cur key = Some (fr, c') ->
+  cur + length key <= c' /\ c' <= length s.
+Proof.
+  unfold parse_string_list. intros s cur key fr c' H.
+  destruct (startswith_at key s cur) eqn:E; [|discriminate].
+  apply startswith_at_bounds in E.
+  destruct (list_items reListItem (S (length s)) s (cur + length key)) as [l c1] eqn:L.
+  apply list_items_bounds in L; [|lia].
+  destruct l; [discriminate|]. inversion H; subst. lia.
+Qed.
+
+Lemma skip_ws_bounds : forall s c, c <= length s ->
+  c <= skip_ws reWs s c /\ skip_ws reWs s c <= length s.
+Proof.
+  unfold skip_ws. intros s c Hc. destruct (omatch reWs s c) as [w|] eqn:E; [|lia].
+  apply omatch_span in E. lia.
+Qed.
+
+Lemma create_po_ok : forall key, create_ok key (create_po reWs reListItem).
+Proof.
+  unfold create_ok, create_po, create_po_full. intros key s off k c w e Hk He.
+  pose proof (omatch_span _ _ _ _ Hk) as [S1 [S2 [S3 _]]].
+  set (start := m_start k) in *.
+  assert (Hst : start <= length s) by lia.
+  destruct (match parse_string_list reListItem s start s_msgctxt with
+            | Some (fr, c1) => (Some fr, skip_ws reWs s c1)
+            | None => (None, start)
+            end) as [msgctxt cursor] eqn:E0.
+  assert (Hcur : start <= cursor /\ cursor <= length s).
+  { destruct (parse_string_list reListItem s start s_msgctxt) as [[fr c1]|] eqn:P0.
+    - apply parse_string_list_bounds in P0. inversion E0; subst.
+      pose proof (skip_ws_bounds s c1). lia.
+    - inversion E0; subst. lia. }
+  destruct (parse_string_list reListItem s cursor s_msgid) as [[msgid c2]|] eqn:P1;
+    [|discriminate].
+  apply parse_string_list_bounds in P1.
+  pose proof (skip_ws_bounds s c2 ltac:(lia)) as W2.
+  destruct (parse_string_list reListItem s (skip_ws reWs s c2) s_msgstr) as [[msgstr c4]|] eqn:P2;
+    [|discriminate].
+  apply parse_string_list_bounds in P2.
+  assert (L1 : length s_msgid = 5) by reflexivity.
+  inversion He; subst e; clear He. simpl.
+  split; [reflexivity|]. split; [reflexivity|]. split; [reflexivity|].
+  split; [lia|]. split; [lia|]. split; apply span_inside_some; lia.
+Qed.
+End PoContract.
+
+Theorem get_next_po_contract : forall reComment reWs reKey reListItem,
+  nullable reComment = false -> nullable reWs = false ->
+  gn_contract (stateless (get_next_base (fmt_po reComment reWs reKey reListItem))).
+Proof.
+  intros. apply get_next_base_contract; simpl; auto. apply create_po_ok.
+Qed.
+
+(* ---- at the end of the text ----------------------------------------------------------------------- *)
+Lemma omatch_at_end : forall r s off, nullable r = false -> length s <= off ->
+  omatch r s off = None.
+Proof.
+  intros r s off Hn Hl. destruct (omatch r s off) as [x|] eqn:E; [|reflexivity].
+  pose proof (omatch_progress _ _ _ _ Hn E). apply omatch_span in E. lia.
+Qed.
+
+Lemma junk_end_at_end : forall exprs s off je, length s <= off ->
+  junk_end exprs s off je = je.
+Proof.
+  induction exprs as [|r rest IH]; intros s off je Hl; simpl; [reflexivity|].
+  destruct (osearch r s (S off)) as [x|] eqn:E.
+  - apply osearch_span in E. lia.
+  - apply IH. exact Hl.
+Qed.
+
+Lemma get_junk_at_end : forall exprs s, get_junk exprs s (length s) = mk_junk (length s, length s).
+Proof.
+  intros exprs s. unfold get_junk. rewrite junk_end_at_end; [reflexivity|lia].
+Qed.
+
+Lemma get_next_base_at_end : forall F s,
+  nullable (f_comment F) = false -> nullable (f_ws F) = false -> nullable (f_key F) = false ->
+  get_next_base F s (length s) = mk_junk (length s, length s).
+Proof.
+  intros F s Hnc Hnw Hnk. unfold get_next_base. cbv zeta.
+  rewrite (omatch_at_end (f_comment F)), (omatch_at_end (f_ws F)), (omatch_at_end (f_key F));
+    auto. apply get_junk_at_end.
+Qed.
+
+(* ---- dtd --------------------------------------------------------------------------------------------- *)
+Section DtdContract.
+Variables (reComment reWs reKey reHeader rePE : rx) (gkey gval gpekey gpeval : nat).
+Hypothesis Hnc : nullable reComment = false.
+Hypothesis Hnw : nullable reWs = false.
+Hypothesis Hnk : nullable reKey = false.
+Hypothesis Hnp : nullable rePE = false.
+(* the value group includes its two quotes *)
+Hypothesis val_wide : forall s off x sp,
+  omatch reKey s off = Some x -> group gval x = Some sp -> fst sp + 2 <= snd sp.
+Hypothesis header_bom : forall s,
+  (exists x, omatch reHeader s 0 = Some x) <-> (exists s', s = bom :: s').
+
+Lemma create_dtd_ok : create_ok reKey (create_dtd gkey gval).
+Proof.
+  unfold create_ok, create_dtd. intros s off k c w e Hk He.
+  inversion He; subst e; clear He. simpl.
+  pose proof (omatch_progress _ _ _ _ Hnk Hk).
+  pose proof (omatch_span _ _ _ _ Hk) as [S1 [S2 [S3 _]]].
+  split; [reflexivity|]. split; [reflexivity|]. split; [reflexivity|].
+  split; [lia|]. split; [lia|]. split; [eapply omatch_group_inside; eauto|].
+  destruct (group gval k) as [[a b]|] eqn:G; [|apply span_inside_none].
+  pose proof (val_wide _ _ _ _ Hk G) as Hw. simpl in Hw.
+  pose proof (omatch_group_inside _ _ _ _ gval Hk _ G) as Hi. simpl in Hi.
+  apply span_inside_some; lia.
+Qed.
+
+Let gn := get_next_dtd reComment reWs reKey reHeader rePE gkey gval gpekey gpeval.
+Let F := fmt_dtd reComment reWs reKey gkey gval.
+
+(* what get_next_dtd does after it has fixed the offset *)
+Definition dtd_at (s : str) (offset : nat) : entry :=
+  let entity := get_next_base F s offset in
+  match e_kind entity with
+  | KJunk =>
+      match omatch rePE s offset with
+      | Some x => mkentry KEntity (mspan x) (group gpekey x) (group gpeval x) None None
+      | None => entity
+      end
+  | _ => entity
+  end.
+
+Lemma dtd_offset : forall s off,
+  (if Nat.eqb off 0 && match omatch reHeader s 0 with Some _ => true | None => false end
+   then off + 1 else off) = off + (if Nat.eqb off 0 then skip_of s else 0).
+Proof.
+  intros s off. destruct (Nat.eqb off 0); simpl; [|lia].
+  destruct (omatch reHeader s 0) as [x|] eqn:E.
+  - destruct (proj1 (header_bom s) (ex_intro _ x E)) as [s' Hs]. subst s. reflexivity.
+  - destruct s as [|c s']; simpl; [lia|].
+    destruct (N.eqb c bom) eqn:Ec; [|lia].
+    apply N.eqb_eq in Ec. subst c.
+    destruct (proj2 (header_bom (bom :: s')) (ex_intro _ s' eq_refl)) as [x Hx].
+    rewrite Hx in E. discriminate.
+Qed.
+
+Lemma gn_dtd_at : forall s off,
+  gn s off = dtd_at s (off + (if Nat.eqb off 0 then skip_of s else 0)).
+Proof.
+  intros s off. unfold gn, get_next_dtd. cbv zeta. rewrite dtd_offset. reflexivity.
+Qed.
+
+Lemma dtd_at_step : forall s off, off < length s -> step_ok s off (dtd_at s off).
+Proof.
+  intros s off Hoff. unfold dtd_at. cbv zeta.
+  assert (Hb : step_ok s off (get_next_base F s off)).
+  { apply get_next_base_step; auto. apply create_dtd_ok. }
+  destruct (e_kind (get_next_base F s off)); try exact Hb.
+  destruct (omatch rePE s off) as [x|] eqn:Hp; [|exact Hb].
+  eapply (step_match rePE); eauto; eapply omatch_group_inside; eauto.
+Qed.
+
+Lemma dtd_at_end : forall s, dtd_at s (length s) = mk_junk (length s, length s).
+Proof.
+  intros s. unfold dtd_at. cbv zeta. rewrite get_next_base_at_end; auto. simpl.
+  rewrite omatch_at_end; auto.
+Qed.
+
+Theorem get_next_dtd_contract : dtd_contract (stateless gn).
+Proof.
+  intros s. unfold stateless. simpl. split; [|split].
+  - intros _ off H1 H2. rewrite gn_dtd_at.
+    destruct (Nat.eqb off 0) eqn:E; [apply Nat.eqb_eq in E; lia|].
+    rewrite Nat.add_0_r. apply dtd_at_step. exact H2.
+  - intros H. rewrite gn_dtd_at. simpl. apply dtd_at_step. exact H.
+  - intros Hs. rewrite gn_dtd_at. subst s. simpl.
+    change 1 with (length [bom]) at 1. rewrite dtd_at_end. reflexivity.
+Qed.
+End DtdContract.
